@@ -344,7 +344,14 @@ func randTime(r *h.Rng, bt []float64) float64 {
 }
 
 // randField draws one date component; idx is the position in (year, month, date, h, m, s, ms).
+var hugeFields = []float64{1e300, -1e300, math.MaxFloat64, 9223372036854775808, -9223372036854775808, 9007199254740992, 1e19, -1e19, 1e17, -1e17,
+	1e13, -1e13, 9.3e12, -9.3e12, 8.64e15, -8.64e15, 8.64e12, 2500000, 2500001, -2500001, 25000000, 25000001, 1e9, 1e9 + 1, -1e9 - 1,
+	24e9, 24e9 + 1, 144e10, 144e10 + 1, 864e11, 864e11 + 1, 864e14, 864e14 + 16, 864e14 + 32, -864e14 - 16, 4e9, 1e10, 3e11, -3e11, 1e8 + 1, 1e6 + 0.5}
+
 func randField(r *h.Rng, idx int) float64 {
+	if r.Intn(25) == 0 {
+		return hugeFields[r.Intn(len(hugeFields))]
+	}
 	switch r.Intn(20) {
 	case 0, 1, 2, 3, 4, 5:
 		// typical
@@ -434,6 +441,18 @@ func genC12(c *h.Ctx) {
 			op = "ctor"
 		}
 		c.Add(op+" "+strings.Join(parts, " "), fmt.Sprintf("%s:n=%d", op, n))
+	}
+	// fields beyond the too-large guard that cancel each other (region huge_field_cancel) and near misses
+	for i := 0; i < c.N(300, 20000); i++ {
+		y := float64(2499990 + r.Intn(20))
+		d := -float64(913000000 + r.Intn(2000000))
+		c.Add("utc "+hx(y)+" "+hx(0)+" "+hx(d), "utc:cancel")
+		hh := float64(23999999990 + int64(r.Intn(20)))
+		mm := -hh*60 + float64(r.Intn(100000))
+		c.Add("utc "+hx(1970)+" "+hx(0)+" "+hx(1)+" "+hx(hh)+" "+hx(mm), "utc:cancel")
+		c.Add("set "+hx(float64(r.Intn(1000000)))+" Hours:"+hx(hh)+","+hx(mm), "set:cancel")
+		ms := float64(int64(r.U64()%17280000000000001) - 8640000000000000)
+		c.Add("set "+hx(0)+" Milliseconds:"+hx(ms)+" Seconds:"+hx(float64(r.Intn(100)))+","+hx(-ms), "set:bigms")
 	}
 	// scripted arguments: which ToNumber conversions happen, in which order, and what a throwing one leaves behind
 	scripted := func(x float64) string {
